@@ -100,6 +100,11 @@ func (gl GitLab) validate() error {
 	if gl.MaxComments < 0 {
 		return errors.New("maxComments cannot be negative")
 	}
+	if gl.Timeout != "" {
+		if _, err := parseDuration(gl.Timeout); err != nil {
+			return err
+		}
+	}
 	return nil
 }
 
